@@ -150,7 +150,7 @@ class Summarizer:
     def summarize(self, fn: ast.FunctionDef, bind: Optional[Dict[str, ast.expr]] = None) -> ast.expr:
         key = (id(fn), tuple(sorted((k, u(v)) for k, v in (bind or {}).items())))
         if key not in self._cache:
-            self._cache[key] = _PositivePolarity().visit(self._run_top(fn.body, dict(bind or {}), {}))
+            self._cache[key] = _PositivePolarity().visit(self._run_top(_degenerate(fn), dict(bind or {}), {}))
         return copy.deepcopy(self._cache[key])
 
     # internals ------------------------------------------------------------
@@ -433,6 +433,49 @@ class Summarizer:
         return cont, ast.DictComp(key=elt[0], value=elt[1], generators=[gen])
 
 
+def _degenerate(fn: ast.FunctionDef) -> List[ast.stmt]:
+    """A generator function as the function returning the list of what it yields: `yield e` -> `__gen__.append(e)`,
+    `yield from X` -> a loop of appends, `__gen__ = []` first and `return __gen__` last.  Only when every yield is a
+    statement of the function itself (not of a nested def) and the function has no `return <value>`."""
+    own = []
+
+    def walk(n):
+        for c in ast.iter_child_nodes(n):
+            if isinstance(c, (ast.FunctionDef, ast.AsyncFunctionDef, ast.Lambda)):
+                continue
+            own.append(c)
+            walk(c)
+
+    walk(fn)
+    yields = [n for n in own if isinstance(n, (ast.Yield, ast.YieldFrom))]
+    if not yields:
+        return fn.body
+    stmt_yields = [n for n in own if isinstance(n, ast.Expr) and isinstance(n.value, (ast.Yield, ast.YieldFrom))]
+    if len(stmt_yields) != len(yields) or any(isinstance(n, ast.Return) and n.value is not None for n in own):
+        return fn.body
+
+    class T(ast.NodeTransformer):
+        def visit_FunctionDef(self, n):
+            return n
+
+        def visit_Expr(self, n):
+            if isinstance(n.value, ast.Yield):
+                v = n.value.value if n.value.value is not None else ast.Constant(value=None)
+                return ast.Expr(value=ast.Call(func=ast.Attribute(value=ast.Name(id="__gen__", ctx=ast.Load()), attr="append", ctx=ast.Load()), args=[v], keywords=[]))
+            if isinstance(n.value, ast.YieldFrom):
+                app = ast.Expr(value=ast.Call(func=ast.Attribute(value=ast.Name(id="__gen__", ctx=ast.Load()), attr="append", ctx=ast.Load()), args=[ast.Name(id="__y__", ctx=ast.Load())], keywords=[]))
+                return ast.For(target=ast.Name(id="__y__", ctx=ast.Store()), iter=n.value.value, body=[app], orelse=[])
+            return n
+
+    body = [T().visit(copy.deepcopy(st)) for st in fn.body]
+    init = ast.Assign(targets=[ast.Name(id="__gen__", ctx=ast.Store())], value=ast.List(elts=[], ctx=ast.Load()))
+    ret = ast.Return(value=ast.Name(id="__gen__", ctx=ast.Load()))
+    out = [init] + body + [ret]
+    for st in out:
+        ast.fix_missing_locations(st)
+    return out
+
+
 SUMMARIZER = Summarizer()
 
 
@@ -484,7 +527,36 @@ class _Fold(ast.NodeTransformer):
             return [ast.Subscript(value=copy.deepcopy(it), slice=ast.Constant(value=k), ctx=ast.Load()) for k in (0, 1)]
         return None
 
+    def _zip_elems(self, it: ast.expr) -> Optional[List[List[ast.expr]]]:
+        """zip(A, B, ..) over 2 x 2 block lists / literal lists of equal length -> [[a0, b0, ..], [a1, b1, ..]]"""
+        if not (isinstance(it, ast.Call) and isinstance(it.func, ast.Name) and it.func.id == "zip" and it.args and not it.keywords):
+            return None
+        cols = []
+        for a in it.args:
+            a = self.visit(copy.deepcopy(a))
+            el = self._block_elems(a)
+            if el is None and isinstance(a, (ast.List, ast.Tuple)) and not any(isinstance(x, ast.Starred) for x in a.elts):
+                el = list(a.elts)
+            if el is None:
+                return None
+            cols.append(el)
+        if len({len(c) for c in cols}) != 1:
+            return None
+        return [list(t) for t in zip(*cols)]
+
     def visit_ListComp(self, node: ast.ListComp):
+        # [f(a, b) for a, b in zip(X.blocks, Y.blocks)] -> [f(X.blocks[0], Y.blocks[0]), f(X.blocks[1], Y.blocks[1])]
+        if len(node.generators) == 1 and isinstance(node.generators[0].target, ast.Tuple) and not node.generators[0].ifs and all(isinstance(t, ast.Name) for t in node.generators[0].target.elts):
+            g0 = node.generators[0]
+            rows = self._zip_elems(g0.iter)
+            if rows is not None and all(len(r) == len(g0.target.elts) for r in rows):
+                out = []
+                for r in rows:
+                    elt = copy.deepcopy(node.elt)
+                    for t, v in zip(g0.target.elts, r):
+                        elt = _SubstName(t.id, v).visit(elt)
+                    out.append(self.visit(elt))
+                return ast.List(elts=out, ctx=ast.Load())
         # outer generators first, so that an inner `for block in block_row` sees the substituted row
         if len(node.generators) == 1 and isinstance(node.generators[0].target, ast.Name) and not node.generators[0].ifs:
             g0 = node.generators[0]
@@ -513,6 +585,65 @@ class _Fold(ast.NodeTransformer):
 
 def fold(e: ast.expr) -> ast.expr:
     return _Fold().visit(e)
+
+
+class _FoldConsts(ast.NodeTransformer):
+    """Arithmetic / comparisons of integer literals, conditionals on a literal truth value, `slice(None)` -> `:` - what is
+    left after a helper taking an axis number (`dim_idx=0`) has been inlined into each of its two callers."""
+
+    @staticmethod
+    def _int(n):
+        return isinstance(n, ast.Constant) and isinstance(n.value, int) and not isinstance(n.value, bool)
+
+    def visit_BinOp(self, node):
+        self.generic_visit(node)
+        if self._int(node.left) and self._int(node.right):
+            a, b = node.left.value, node.right.value
+            if isinstance(node.op, ast.Add):
+                return ast.Constant(value=a + b)
+            if isinstance(node.op, ast.Sub):
+                return ast.Constant(value=a - b)
+            if isinstance(node.op, ast.Mult):
+                return ast.Constant(value=a * b)
+        return node
+
+    def visit_Compare(self, node):
+        self.generic_visit(node)
+        # members of one enumeration: MO.ROWS == MO.ROWS / MO.ROWS == MO.COLUMNS
+        if len(node.ops) == 1 and isinstance(node.ops[0], (ast.Eq, ast.NotEq, ast.Is, ast.IsNot)):
+            a, b = node.left, node.comparators[0]
+            if (isinstance(a, ast.Attribute) and isinstance(b, ast.Attribute) and isinstance(a.value, ast.Name) and isinstance(b.value, ast.Name)
+                    and a.value.id == b.value.id and a.value.id.isupper() and a.attr.isupper() and b.attr.isupper()):
+                same = a.attr == b.attr
+                return ast.Constant(value=same if isinstance(node.ops[0], (ast.Eq, ast.Is)) else not same)
+        if len(node.ops) == 1 and self._int(node.left) and self._int(node.comparators[0]):
+            a, b = node.left.value, node.comparators[0].value
+            table = {ast.Eq: a == b, ast.NotEq: a != b, ast.Lt: a < b, ast.LtE: a <= b, ast.Gt: a > b, ast.GtE: a >= b}
+            if type(node.ops[0]) in table:
+                return ast.Constant(value=table[type(node.ops[0])])
+        return node
+
+    def visit_UnaryOp(self, node):
+        self.generic_visit(node)
+        if isinstance(node.op, ast.Not) and isinstance(node.operand, ast.Constant) and isinstance(node.operand.value, bool):
+            return ast.Constant(value=not node.operand.value)
+        return node
+
+    def visit_IfExp(self, node):
+        self.generic_visit(node)
+        if isinstance(node.test, ast.Constant) and isinstance(node.test.value, bool):
+            return node.body if node.test.value else node.orelse
+        return node
+
+    def visit_Call(self, node):
+        self.generic_visit(node)
+        if isinstance(node.func, ast.Name) and node.func.id == "slice" and len(node.args) == 1 and isinstance(node.args[0], ast.Constant) and node.args[0].value is None:
+            return ast.Slice()
+        return node
+
+
+def fold_consts(e: ast.expr) -> ast.expr:
+    return ast.fix_missing_locations(_FoldConsts().visit(copy.deepcopy(e)))
 
 
 class Expander(ast.NodeTransformer):
@@ -576,6 +707,12 @@ class Expander(ast.NodeTransformer):
             m = self.repo.lookup(self.ctx, node.attr)
             if m is not None and m.kind in ("lazyproperty", "property") and not self.stop(m):
                 return self.expand_member(m)
+            # a PURE ALIAS (`_dimension` -> `return self._rows_dimension`) is transparent even where the rule keeps
+            # properties symbolic: the rule names the aliased member, not the alias
+            if m is not None and m.kind in ("lazyproperty", "property"):
+                tgt = self._pure_alias(m)
+                if tgt is not None and tgt != node.attr and (self.ctx.name, node.attr) not in self.stack:
+                    return self.visit(ast.Attribute(value=node.value, attr=tgt, ctx=ast.Load()))
             return node
         after = self._super_after(node.value)
         if after is not None:
@@ -596,6 +733,14 @@ class Expander(ast.NodeTransformer):
                 if bind is not None:
                     return self.expand_member(m, bind)
         return self.generic_visit(node)
+
+    @staticmethod
+    def _pure_alias(m: Member) -> Optional[str]:
+        """name X when the member's whole body is `return self.X` (docstring aside)"""
+        body = [st for st in getattr(m.node, "body", []) if not (isinstance(st, ast.Expr) and isinstance(st.value, ast.Constant))]
+        if len(body) == 1 and isinstance(body[0], ast.Return) and isinstance(body[0].value, ast.Attribute) and isinstance(body[0].value.value, ast.Name) and body[0].value.value.id == "self":
+            return body[0].value.attr
+        return None
 
     @staticmethod
     def _bind(m: Member, args: Sequence[ast.expr], kws: Dict[str, ast.expr]) -> Optional[Dict[str, ast.expr]]:
